@@ -157,7 +157,7 @@ def run_client(spec, acc):
                 if c_no == n_sessions - 1:
                     break
                 if kind == "waveshare" or rep % 2:
-                    conn.reset(simgw.serial_loss_exception() if kind == "waveshare" else ConnectionResetError(104, "reset by peer"))
+                    conn.reset(simgw.link_loss(kind))
                 else:
                     conn.feed_eof()
                 for _ in range(6000):
